@@ -854,3 +854,21 @@ mod test_stun_packet_decoder {
         };
     }
 }
+
+#[cfg(feature = "verif-hooks")]
+pub use crate::client::VerifSnapshot;
+
+/// Positions of the attributes admitted by the agent's protected attribute iterator (verification hook)
+#[cfg(feature = "verif-hooks")]
+pub fn verif_protected_positions(attributes: &[StunAttribute]) -> Vec<usize> {
+    let admitted: Vec<*const StunAttribute> = attributes
+        .protected_iter()
+        .map(|a| a as *const StunAttribute)
+        .collect();
+    attributes
+        .iter()
+        .enumerate()
+        .filter(|(_, a)| admitted.contains(&(*a as *const StunAttribute)))
+        .map(|(i, _)| i)
+        .collect()
+}
